@@ -25,8 +25,9 @@ ASSUMPTIONS = [
     "verdicts are relative to the simulated kernel; spawn times are exact "
     "virtual timestamps (eps = 1e-3, each spawn costs 1 us)",
     "ties in priority are unconstrained",
-    "only the initial spawns of a sequence are considered (no periodic "
-    "check runs inside a sequence)",
+    "only the spawns between the start of a sequence and its completion "
+    "are considered; in half of the cases the real periodic callback fires "
+    "(every 0.2 / 0.05 s of virtual time) while the sequences run",
 ]
 EPS = 1e-3
 
@@ -86,6 +87,7 @@ def execute(case):
     hc = {"watchers": [dict(wc) for wc in case["watchers"]],
           "arbiter": {"warmup_delay": case["global_warmup"]},
           "spawn_cost": case.get("spawn_cost", 1e-6),
+          "periodic": case.get("periodic"),
           "ops": [], "tape": []}
     h = History(hc)
     w = h.world
@@ -98,9 +100,24 @@ def execute(case):
     try:
         for f in case.get("start_faults", []):
             k.arm_fault(f[0], f[1], f[2])
-        h.start()
+        if case.get("periodic"):
+            # the real periodic callback keeps firing (every `periodic`
+            # seconds of virtual time) while the sequences run; a sequence
+            # ends when the exclusive slot is free again / its reply arrives
+            classes.add('periodic-checks-during-sequences')
+            w.start(drain=False)
+            h.started = True
+            w.advance_until(
+                lambda: w.arbiter._exclusive_running_command is None and
+                w.loop.is_idle(), w.loop.time() + 600.0)
+            t_end = w.loop.time()
+            first = [r for r in k.spawn_log if r["t"] <= t_end + EPS]
+            w.drain()
+        else:
+            h.start()
+            first = list(k.spawn_log)
         auto = [n for n in wmap if wmap[n].get("autostart", True)]
-        analyse('daemon-start', list(k.spawn_log), wmap, auto, gwarm, viols)
+        analyse('daemon-start', first, wmap, auto, gwarm, viols)
         for n in wmap:
             if not wmap[n].get("autostart", True):
                 classes.add('autostart-off')
@@ -140,6 +157,9 @@ def execute(case):
             if sq.get("glob"):
                 props["name"] = sq["glob"]
             r = w.request(kind, props)
+            if case.get("periodic"):
+                w.advance_until(lambda: r.answered, w.loop.time() + 600.0)
+            t_end = w.loop.time() if case.get("periodic") else None
             w.drain()
             k.disarm()
             rep = r.reply() or {}
@@ -153,7 +173,9 @@ def execute(case):
             if len(matched) >= 2:
                 classes.add('multi-watcher-sequence')
             analyse('%s%s' % (kind, '-glob' if sq.get("glob") else '-all'),
-                    k.spawn_log[n0:], wmap, matched, gwarm, viols)
+                    [r_ for r_ in k.spawn_log[n0:]
+                     if t_end is None or r_["t"] <= t_end + EPS],
+                    wmap, matched, gwarm, viols)
         if w.blocked:
             viols.append(Violation('C19:blocked:%s' % w.blocked_where,
                                    'event loop blocked'))
@@ -219,6 +241,7 @@ def _strategy():
                 "spawn_cost": draw(st.sampled_from([1e-6, 1e-6, 0.02,
                                                     0.045])),
                 "start_faults": draw(st.lists(fault, max_size=2)),
+                "periodic": draw(st.sampled_from([None, None, 0.2, 0.05])),
                 "sequences": seqs}
     return case()
 
